@@ -13,11 +13,13 @@ rsync -a --exclude .git --exclude logs --exclude benchmarks /repo/ "$D/"
 HERE="$(cd "$(dirname "$0")/.." && pwd)"
 [ -x "$HERE/checker/vcheck" ] || "$HERE/setup.sh" >/dev/null
 fired=0
+LIST="$(echo $PROPS | tr ' ' ',')"
+case "$LIST" in *,*) ;; *) LIST="$LIST,$LIST";; esac
+out="$(timeout 900 "$HERE/checker/vcheck" -prop "$LIST" -tier quick -repo "$D" -verif "$HERE" -nowrite 2>&1 || true)"
 for p in $PROPS; do
-  out="$(timeout 300 "$HERE/checker/vcheck" -prop $p -tier quick -repo "$D" -verif "$HERE" -nowrite 2>&1 || true)"
-  printf '%s\n' "$out" | grep -q '^SUMMARY' || out="$out
+  printf '%s\n' "$out" | grep -q "^SUMMARY property=$p " || out="$out
 UNDECIDED  $p.internal:no-summary  the checker did not finish (crash or timeout)"
-  bad="$(printf '%s\n' "$out" | grep -E '^(FAIL|UNDECIDED)' || true)"
-  if [ -n "$bad" ]; then fired=1; printf '%s\n' "$bad" | cut -c1-420 | sed "s/^/[$p] /"; fi
 done
+bad="$(printf '%s\n' "$out" | grep -E '^(FAIL|UNDECIDED)' | sort -u || true)"
+if [ -n "$bad" ]; then fired=1; printf '%s\n' "$bad" | cut -c1-420 | sed -E 's/^(FAIL|UNDECIDED) +(C[0-9]+)/[\2] \1  \2/'; fi
 [ $fired -eq 1 ] && echo "RESULT: reported" || echo "RESULT: silent"
